@@ -534,6 +534,10 @@ def gen(rng, tier):
             docs = [xml_nested] if fmt == "xml" else [enc(d) for d in seq_docs]
             for d in docs:
                 cases.append({"fmt": fmt, "doc": d, "src": {}, "pre": pre})
+    for fmt in ("json", "json5", "yaml", "plist"):
+        for pd in ([["left over"], ["left"]], [["abc"], ["abcd"]], [{"k": "gone"}, {"k": ""}], [["x", "tail"], ["x"]]):
+            for d in (["abc", 1], {"k": "v"}, "top", [["nested"]]):
+                cases.append({"fmt": fmt, "doc": enc(d), "src": {}, "prediff": pd})
     for i in range(60 if not thorough else 1500):
         fmt = rng.choice(["yaml", "yaml", "plist", "json"])
         pre_fmt = rng.choice([f for f in ("json", "yaml", "plist") if f != fmt])
@@ -732,6 +736,17 @@ def impl(case):
             f.write(source_bytes(pre))
         try:
             pft.get_default_formatter().print(printer, pft.build_tree(p0))
+            printer.newline()
+        except Exception as e:
+            return dict(_exc(e), stage="load1-raises", pre_failed=True)
+        start = len(out.getvalue())
+    if case.get("prediff"):
+        # the same formatter and Printer first print a DIFF (without colour) whose last string ends in removed
+        # characters: state kept on the shared default formatter must not leak into the next document
+        from graphtage import json as gj
+        try:
+            f0, t0 = case["prediff"]
+            ft.get_default_formatter().print(printer, gj.build_tree(f0).diff(gj.build_tree(t0)))
             printer.newline()
         except Exception as e:
             return dict(_exc(e), stage="load1-raises", pre_failed=True)
@@ -999,7 +1014,7 @@ def monitor(case, obs):
         return []          # no loaded document / reader-only case: outside the property
     hits = []
     o1 = obs.get("obj1")
-    seq = ":after-" + case["pre"]["fmt"] if case.get("pre") else ""
+    seq = ":after-" + case["pre"]["fmt"] if case.get("pre") else ":after-a-diff" if case.get("prediff") else ""
     if st in ("print-raises", "print-unencodable", "reload-rejects"):
         cls = "print-raises" if st != "reload-rejects" else "reload-rejects"
         feat = top_feature(o1)
@@ -1135,6 +1150,8 @@ def classify(case, obs):
     st = obs.get("stage")
     if case.get("pre"):
         return f"{fmt}|after-{case['pre']['fmt']}|{st}"
+    if case.get("prediff"):
+        return f"{fmt}|after-a-diff|{st}"
     if st != "ok":
         return f"{fmt}|{st}"
     if fmt == "xml":
@@ -1159,6 +1176,8 @@ def shrink(case):
     base = {"fmt": case["fmt"], "src": {k: v for k, v in (case.get("src") or {}).items() if k != "text"}}
     if case.get("pre"):
         base["pre"] = case["pre"]
+    if case.get("prediff"):
+        base["prediff"] = case["prediff"]
     if "text" in (case.get("src") or {}):
         return
 
